@@ -3,6 +3,7 @@ package rules
 import (
 	"fmt"
 	"go/ast"
+	"go/parser"
 	"go/token"
 	"go/types"
 	"regexp"
@@ -399,79 +400,117 @@ func IP3(rc *RC) {
 // permutation; indexing the new permutation by (the elements of) transposeWith composes the two
 // in the opposite order, which is a different permutation unless they commute.
 func T14(rc *RC) {
-	rc.S.Declare("T14", "composition with the pending transpose: wherever the saved permutation transposeWith is combined with another index vector it is the outer one (transposeWith[q[i]]), never the index of the other (q[transposeWith[i]])", 1)
-	n := 0
+	rc.S.Declare("T14", "composition with the pending transpose: wherever the saved permutation transposeWith is combined with another index vector it is the outer one (transposeWith[q[i]]), never the index of the other (q[transposeWith[i]])", 0)
+	// the rule's expected count of violations is zero and a refactoring may leave no composition
+	// site at all: the matcher is run on a built-in positive example on every run, so a matcher
+	// that has gone blind fails the check instead of passing vacuously
+	if !t14SelfTest() {
+		rc.S.Undec("T14", "self-test", "-", "the matcher no longer recognises its built-in positive example")
+		return
+	}
 	for _, fi := range rc.P.SortedFuncs() {
 		if fi.Pkg != rc.P.Root || fi.Decl == nil || fi.Decl.Body == nil || strings.HasSuffix(fi.File, "_test.go") {
 			continue
 		}
-		info := fi.Pkg.TypesInfo
-		isTW := func(e ast.Expr) bool {
-			if s, ok := e.(*ast.SelectorExpr); ok && s.Sel.Name == "transposeWith" {
-				return true
-			}
-			if c, ok := e.(*ast.CallExpr); ok {
-				if s, isSel := c.Fun.(*ast.SelectorExpr); isSel && s.Sel.Name == "transposeAxes" && len(c.Args) == 0 {
-					return true
-				}
-			}
-			return false
+		good, bad := t14Scan(fi.Pkg.TypesInfo, fi.Decl.Body)
+		for _, ix := range good {
+			rc.S.Ok("T14", fmt.Sprintf("%s#%s", fi.Key, types.ExprString(ix)), rc.P.Pos(ix.Pos()), "saved permutation applied last")
 		}
-		// range values over transposeWith: `for i, a := range t.transposeWith`
-		elemOfTW := map[types.Object]bool{}
-		ast.Inspect(fi.Decl.Body, func(m ast.Node) bool {
-			if rs, ok := m.(*ast.RangeStmt); ok && isTW(rs.X) {
-				if v, isId := rs.Value.(*ast.Ident); isId {
-					if o := info.ObjectOf(v); o != nil {
-						elemOfTW[o] = true
-					}
-				}
-			}
-			return true
-		})
-		ast.Inspect(fi.Decl.Body, func(m ast.Node) bool {
-			ix, ok := m.(*ast.IndexExpr)
-			if !ok {
-				return true
-			}
-			t := info.TypeOf(ix.X)
-			if t == nil {
-				return true
-			}
-			if sl, isSl := t.Underlying().(*types.Slice); !isSl || sl.Elem().String() != "int" {
-				return true
-			}
-			// outer transposeWith indexed by something: fine, counted
-			if isTW(ix.X) {
-				n++
-				rc.S.Ok("T14", fmt.Sprintf("%s#%s", fi.Key, types.ExprString(ix)), rc.P.Pos(ix.Pos()), "saved permutation applied last")
-				return true
-			}
-			// X is another int slice; the index is an element of transposeWith
-			innerTW := false
-			switch x := ix.Index.(type) {
-			case *ast.IndexExpr:
-				innerTW = isTW(x.X)
-			case *ast.Ident:
-				innerTW = elemOfTW[info.ObjectOf(x)]
-			}
-			if innerTW {
-				// shape/stride lookups by a permuted axis are not compositions of permutations:
-				// only index vectors (locals / parameters named as axes, or any []int local that is
-				// not a Shape) count
-				if named, isNamed := t.(*types.Named); isNamed && named.Obj().Name() == "Shape" {
-					return true
-				}
-				if s, isSel := ix.X.(*ast.SelectorExpr); isSel && (s.Sel.Name == "shape" || s.Sel.Name == "strides") {
-					return true
-				}
-				n++
-				rc.S.Viol("T14", fmt.Sprintf("%s#%s", fi.Key, types.ExprString(ix)), rc.P.Pos(ix.Pos()), fmt.Sprintf("%s indexes another index vector by the elements of the saved permutation: this composes the two transposes in the opposite order (the saved permutation must be applied last: transposeWith[q[i]])", types.ExprString(ix)))
-			}
-			return true
-		})
+		for _, ix := range bad {
+			rc.S.Viol("T14", fmt.Sprintf("%s#%s", fi.Key, types.ExprString(ix)), rc.P.Pos(ix.Pos()), fmt.Sprintf("%s indexes another index vector by the elements of the saved permutation: this composes the two transposes in the opposite order (the saved permutation must be applied last: transposeWith[q[i]])", types.ExprString(ix)))
+		}
 	}
-	_ = n
+}
+
+const t14Example = `package p
+type D struct{ transposeWith []int }
+func ok(t *D, axes []int) bool { for i, a := range axes { if t.transposeWith[a] != i { return false } }; return true }
+func wrong(t *D, roll, axes []int) { for i, a := range t.transposeWith { axes[i] = roll[a] } }
+`
+
+func t14SelfTest() bool {
+	fset := token.NewFileSet()
+	f, err := parser.ParseFile(fset, "t14.go", t14Example, 0)
+	if err != nil {
+		return false
+	}
+	info := &types.Info{Types: map[ast.Expr]types.TypeAndValue{}, Defs: map[*ast.Ident]types.Object{}, Uses: map[*ast.Ident]types.Object{}, Selections: map[*ast.SelectorExpr]*types.Selection{}}
+	if _, err := (&types.Config{}).Check("p", fset, []*ast.File{f}, info); err != nil {
+		return false
+	}
+	ng, nb := 0, 0
+	for _, d := range f.Decls {
+		if fd, ok := d.(*ast.FuncDecl); ok && fd.Body != nil {
+			g, b := t14Scan(info, fd.Body)
+			ng += len(g)
+			nb += len(b)
+		}
+	}
+	return ng == 1 && nb == 1
+}
+
+// t14Scan returns the index expressions in which the saved permutation is the outer vector
+// (good) and those in which another index vector is indexed by its elements (bad).
+func t14Scan(info *types.Info, body *ast.BlockStmt) (good, bad []*ast.IndexExpr) {
+	isTW := func(e ast.Expr) bool {
+		if s, ok := e.(*ast.SelectorExpr); ok && s.Sel.Name == "transposeWith" {
+			return true
+		}
+		if c, ok := e.(*ast.CallExpr); ok {
+			if s, isSel := c.Fun.(*ast.SelectorExpr); isSel && s.Sel.Name == "transposeAxes" && len(c.Args) == 0 {
+				return true
+			}
+		}
+		return false
+	}
+	// range values over transposeWith: `for i, a := range t.transposeWith`
+	elemOfTW := map[types.Object]bool{}
+	ast.Inspect(body, func(m ast.Node) bool {
+		if rs, ok := m.(*ast.RangeStmt); ok && isTW(rs.X) {
+			if v, isId := rs.Value.(*ast.Ident); isId {
+				if o := info.ObjectOf(v); o != nil {
+					elemOfTW[o] = true
+				}
+			}
+		}
+		return true
+	})
+	ast.Inspect(body, func(m ast.Node) bool {
+		ix, ok := m.(*ast.IndexExpr)
+		if !ok {
+			return true
+		}
+		t := info.TypeOf(ix.X)
+		if t == nil {
+			return true
+		}
+		if sl, isSl := t.Underlying().(*types.Slice); !isSl || sl.Elem().String() != "int" {
+			return true
+		}
+		if isTW(ix.X) {
+			good = append(good, ix)
+			return true
+		}
+		innerTW := false
+		switch x := ix.Index.(type) {
+		case *ast.IndexExpr:
+			innerTW = isTW(x.X)
+		case *ast.Ident:
+			innerTW = elemOfTW[info.ObjectOf(x)]
+		}
+		if innerTW {
+			// shape/stride lookups by a permuted axis are not compositions of permutations
+			if named, isNamed := t.(*types.Named); isNamed && named.Obj().Name() == "Shape" {
+				return true
+			}
+			if s, isSel := ix.X.(*ast.SelectorExpr); isSel && (s.Sel.Name == "shape" || s.Sel.Name == "strides") {
+				return true
+			}
+			bad = append(bad, ix)
+		}
+		return true
+	})
+	return
 }
 
 // PO: publish last. An object handed back to one of the library's free lists (a send on a pool
